@@ -44,6 +44,9 @@ func init() {
 			"(R19.3 = R20.4) only destinations and backups are mutated; (R19.4) the bundle separator \";\\n\" is passed exactly under the JavaScript media type test; (R19.5 = R20.5) a file minified onto itself leaves no backup behind because the backup's creation and removal names agree.",
 		Run: runC19,
 	})
+	mutant(&Mutant{Name: "c19-mirror-path-by-prefix-cut", Property: "C19", File: "cmd/minify/main.go",
+		Old: "\t\toutput = filepath.Join(output, rel)\n", New: "\t\t_ = rel\n\t\toutput = filepath.Join(output, strings.TrimPrefix(input, root))\n",
+		Rule: "R19.16", Construct: "destination under a directory output"})
 	mutant(&Mutant{Name: "c19-extension-mapped-to-unregistered-type", Property: "C19", File: "cmd/minify/main.go",
 		Old: "\"rss\":         \"application/rss+xml\",", New: "\"rss\":         \"application/rss-xml\",",
 		Rule: "R19.15", Construct: "extMap[rss]"})
@@ -1174,6 +1177,7 @@ func runC19(c *Ctx) {
 	c.r1912(x)
 	c.r209(x, "R19.14")
 	c.r1915(x)
+	c.r1916(x)
 	// a bundle written onto one of its inputs: the input is truncated by the open before the lazy reader gets to it,
 	// so the output silently lacks that file — the ordering rule of C20 is a condition of "the library's output" too
 	c.alsoUnder(map[string]string{"R20.1": "R19.13"}, nil, func() { c.r201(x) })
@@ -2072,4 +2076,50 @@ func (c *Ctx) r1915(x *cliCtx) {
 		c.R.Check(matched || unknown > 0, rule, "main.extMap["+pr[0]+"] selects a registered minifier", "-", pr[1], "files with the extension ."+pr[0]+" are given the media type "+pr[1]+", for which run() registers no minifier (no m.Add literal, no m.AddRegexp pattern matches): every such file is selected and then fails")
 	}
 	c.R.Floor(rule, "extMap entries", len(pairs), 15)
+}
+
+// R19.16: the mirror path is computed with filepath.Rel.
+func (c *Ctx) r1916(x *cliCtx) {
+	const rule = "R19.16"
+	c.R.Rule(rule, "with a directory as output a file keeps its path relative to the root it was found under: in cmd/minify.NewTask the path joined onto the output (`filepath.Join(output, R)`) is the first result of filepath.Rel(root, input) on the function's own parameters. A textual prefix cut is not the same function: with root `.` it strips the dot of a hidden file (`.theme.css` → `out/theme.css`, overwriting an unrelated file), and it is wrong for every root that is not spelled as a prefix of the input")
+	pk, info := x.pk, x.info
+	fd := c.fn(rule, pk, "NewTask")
+	if fd == nil {
+		return
+	}
+	params := map[string]int{}
+	i := 0
+	for _, f := range fd.Type.Params.List {
+		for _, nm := range f.Names {
+			params[nm.Name] = i
+			i++
+		}
+	}
+	n := 0
+	for _, call := range findCalls(info, fd.Body, false, "path/filepath.Join") {
+		if len(call.Args) != 2 {
+			continue
+		}
+		if _, isParam := params[nospace(str(call.Args[0]))]; !isParam {
+			continue
+		}
+		n++
+		good := false
+		why := "the joined path is " + str(call.Args[1])
+		if id, ok := ast.Unparen(call.Args[1]).(*ast.Ident); ok {
+			if def, ok := c.singleDef(pk, id).(*ast.CallExpr); ok && calleeName(info, def) == "path/filepath.Rel" && len(def.Args) == 2 {
+				_, p0 := params[nospace(str(def.Args[0]))]
+				_, p1 := params[nospace(str(def.Args[1]))]
+				if p0 && p1 && params[nospace(str(def.Args[0]))] < params[nospace(str(def.Args[1]))] {
+					good = true
+				} else {
+					why = "filepath.Rel is applied to " + str(def.Args[0]) + ", " + str(def.Args[1])
+				}
+			} else {
+				why = id.Name + " is not the result of filepath.Rel"
+			}
+		}
+		c.R.Check(good, rule, fmt.Sprintf("main.NewTask/destination under a directory output#%d", n), c.pos(call), "filepath.Join(output, filepath.Rel(root, input))", why+": the destination is not the path of the input relative to its root (`minify -o out/ .theme.css` writes out/theme.css)")
+	}
+	c.R.Floor(rule, "joins onto the output directory in NewTask", n, 1)
 }
